@@ -17,7 +17,7 @@ def search(prop, o, seconds=45):
     wd = tempfile.mkdtemp(prefix="witness-", dir="/dev/shm")
     try:
         shutil.copytree(os.path.join(VERIF, "replay", "src"), os.path.join(wd, "src"))
-        open(os.path.join(wd, "Cargo.toml"), "w").write(open(os.path.join(VERIF, "replay", "Cargo.toml.in")).read().replace("@REPO@", REPO).replace("@QWT_FEATURES@", _FEAT.get("v", "")))
+        open(os.path.join(wd, "Cargo.toml"), "w").write(open(os.path.join(VERIF, "replay", "Cargo.toml.in")).read().replace("@REPO@", REPO).replace("@QWT_FEATURES@", _FEAT.get("v", "")).replace("@CHECKS@", "false" if _FEAT.get("plain") else "true"))
         lock = os.path.join(VERIF, "replay", "Cargo.lock")
         if os.path.exists(lock):
             shutil.copy(lock, os.path.join(wd, "Cargo.lock"))
@@ -81,13 +81,13 @@ _FEAT = {}   # "v": extra text in the dependency line (", default-features = fal
 
 def build_program():
     """builds the witness program against the current tree once per process; returns (exe, error)"""
-    bkey = "r" + _FEAT.get("v", "")
+    bkey = "r" + _FEAT.get("v", "") + ("|plain" if _FEAT.get("plain") else "")
     if bkey in _BUILD:
         return _BUILD[bkey]
     wd = tempfile.mkdtemp(prefix="witness-", dir="/dev/shm")
     try:
         shutil.copytree(os.path.join(VERIF, "replay", "src"), os.path.join(wd, "src"))
-        open(os.path.join(wd, "Cargo.toml"), "w").write(open(os.path.join(VERIF, "replay", "Cargo.toml.in")).read().replace("@REPO@", REPO).replace("@QWT_FEATURES@", _FEAT.get("v", "")))
+        open(os.path.join(wd, "Cargo.toml"), "w").write(open(os.path.join(VERIF, "replay", "Cargo.toml.in")).read().replace("@REPO@", REPO).replace("@QWT_FEATURES@", _FEAT.get("v", "")).replace("@CHECKS@", "false" if _FEAT.get("plain") else "true"))
         lock = os.path.join(VERIF, "replay", "Cargo.lock")
         if os.path.exists(lock):
             shutil.copy(lock, os.path.join(wd, "Cargo.lock"))
@@ -103,7 +103,7 @@ def build_program():
             if b.returncode != 0:
                 _BUILD[bkey] = (None, b.stderr[-1500:])
             else:
-                exe = os.path.join("/dev/shm", "qwt-witness-%s" % _digest("exe" + _FEAT.get("v", "")))
+                exe = os.path.join("/dev/shm", "qwt-witness-%s" % _digest("exe" + _FEAT.get("v", "") + ("|plain" if _FEAT.get("plain") else "")))
                 shutil.copy(os.path.join(tdir, "release", "qwt-witness"), exe + ".tmp%d" % os.getpid())
                 os.replace(exe + ".tmp%d" % os.getpid(), exe)
                 _BUILD[bkey] = (exe, None)
@@ -112,16 +112,18 @@ def build_program():
     return _BUILD[bkey]
 
 
-def run_suite(suite, seconds, seed, no_default_features=False):
+def run_suite(suite, seconds, seed, no_default_features=False, plain_release=False):
     """no_default_features: build the crate without its default `prefetch` feature (C09 quantifies over both)"""
     import threading
     with _FEAT_LOCK:
         _FEAT["v"] = ", default-features = false" if no_default_features else ""
+        _FEAT["plain"] = bool(plain_release)   # release profile WITHOUT overflow checks and debug assertions (C10: both build kinds)
         exe_err = build_program()
         _FEAT["v"] = ""
+        _FEAT["plain"] = False
     cdir = os.path.join(VERIF, ".cache", "wx")
     os.makedirs(cdir, exist_ok=True)
-    key = _digest((suite, seconds, seed, bool(no_default_features)))
+    key = _digest((suite, seconds, seed, bool(no_default_features), bool(plain_release)))
     cp = os.path.join(cdir, key + ".json")
     if os.path.exists(cp) and not os.environ.get("VERIF_NOCACHE"):
         return json.load(open(cp))
@@ -151,7 +153,7 @@ def check_send_sync():
     wd = tempfile.mkdtemp(prefix="sendsync-", dir="/dev/shm")
     try:
         shutil.copytree(os.path.join(VERIF, "replay", "src"), os.path.join(wd, "src"))
-        open(os.path.join(wd, "Cargo.toml"), "w").write(open(os.path.join(VERIF, "replay", "Cargo.toml.in")).read().replace("@REPO@", REPO).replace("@QWT_FEATURES@", _FEAT.get("v", "")))
+        open(os.path.join(wd, "Cargo.toml"), "w").write(open(os.path.join(VERIF, "replay", "Cargo.toml.in")).read().replace("@REPO@", REPO).replace("@QWT_FEATURES@", _FEAT.get("v", "")).replace("@CHECKS@", "false" if _FEAT.get("plain") else "true"))
         lock = os.path.join(VERIF, "replay", "Cargo.lock")
         if os.path.exists(lock):
             shutil.copy(lock, os.path.join(wd, "Cargo.lock"))
